@@ -14,7 +14,7 @@
    fields: the create request (or posted segment body) an object descends from. *)
 From Coq Require Import List ZArith NArith Bool.
 Import ListNotations.
-From ACH Require Import Server ServerFacts ServerLib ServerShare ServerShareFacts ServerShareStable ShareTable ServerShareGen C17ShareObl.
+From ACH Require Import Server ServerFacts ServerLib ServerShare ServerShareFacts ServerShareStable ServerShareDerived ShareTable ServerShareGen C17ShareObl.
 From ACH Require Offsets.
 Open Scope N_scope.
 
@@ -187,6 +187,28 @@ Theorem C17_reads_preserve_store_stable : forall rs s,
   all_stable (srun s rs) = true.
 Proof. exact stable_reads_preserve. Qed.
 Print Assumptions C17_reads_preserve_store_stable.
+
+(* What POST /files/{id}/flatten stores is stable WHATEVER the file it was made from looked like
+   (no [built], no [file_stable] of the source): every entry went through the Batch.Create of its
+   consolidated batch, the new file through File.Create.  The label must be one FlattenBatches
+   can produce: every entry in one consolidated batch, headers that validate (the Create
+   succeeded), no ADV / mixed IAT header, eight digit ODFI. *)
+Theorem C17_flatten_result_stable : forall s p gs hdr s1,
+  sinv s -> p < ss_nf s -> s_create s p = (s1, SOk) -> wf_flat_result s p gs = true ->
+  file_stable (s_flatten s p (FlatOk gs hdr)) (ss_nf s) = true.
+Proof. exact flatten_result_stable. Qed.
+Print Assumptions C17_flatten_result_stable.
+
+(* ... hence every READ request addressed to the flattened file g (flatten and segment of g
+   included) leaves what every ID shows — the file g was made from among them *)
+Theorem C17_get_after_flatten_reads : forall s i p gs hdr s1 r j p',
+  sinv s -> lookup (ss_store s) i = Some p -> s_create s p = (s1, SOk) -> wf_flat_result s p gs = true ->
+  let s' := fst (sstep s (SFlatten i (FlatOk gs hdr))) in
+  target r = Some (Gen (ss_nid s)) -> sread_stored r = true -> wf_label s' r = true ->
+  lookup (ss_store s') j = Some p' ->
+  shows (fst (sstep s' r)) j = shows s' j.
+Proof. exact reads_on_flattened_file. Qed.
+Print Assumptions C17_get_after_flatten_reads.
 
 (* ---- ties *)
 
